@@ -38,7 +38,7 @@ struct Route {
 
 #[derive(Clone, Debug)]
 enum Script {
-    Reply { a: Vec<u32>, n: Vec<u32>, d: Vec<u32>, rdlen: usize, tc: bool, wrong_id: bool, rcode: u8, stray: bool },
+    Reply { a: Vec<u32>, n: Vec<u32>, d: Vec<u32>, rdlen: usize, tc: bool, wrong_id: bool, rcode: u8, stray: bool, delay_ms: u64 },
     Garbage,
     Silent,
 }
@@ -158,13 +158,14 @@ fn script_toks(s: &Script) -> Vec<u64> {
     match s {
         Script::Garbage => vec![1],
         Script::Silent => vec![2],
-        Script::Reply { a, n, d, rdlen, tc, wrong_id, rcode, stray } => {
+        Script::Reply { a, n, d, rdlen, tc, wrong_id, rcode, stray, delay_ms } => {
             let mut v = vec![3, *rcode as u64, *rdlen as u64, *tc as u64, *wrong_id as u64];
             for l in [a, n, d] {
                 v.push(l.len() as u64);
                 v.extend(l.iter().map(|&x| x as u64));
             }
             v.push(*stray as u64);
+            v.push(*delay_ms);
             v
         }
     }
@@ -256,6 +257,14 @@ async fn tcp_upstream(l: TcpListener, srv: u64, st: Arc<UpState>) {
                     st.seen.lock().unwrap().push((srv, true, q.clone()));
                     match if q.len() >= 12 { answer(&st, &q, true) } else { None } {
                         Some(r) => {
+                            // a slow upstream: the answer comes, but late
+                            let delay = match *st.script.lock().unwrap() {
+                                Script::Reply { delay_ms, .. } => delay_ms,
+                                _ => 0,
+                            };
+                            if delay > 0 {
+                                tokio::time::sleep(Duration::from_millis(delay)).await;
+                            }
                             *st.tcp_sent.lock().unwrap() = Some(r.clone());
                             *st.answered_at.lock().unwrap() = Some(Instant::now());
                             let mut o = vec![];
@@ -321,7 +330,10 @@ async fn run_history(h: &Hist) -> Option<Toks> {
     hk::set_cookie_keys(h.cur, h.prev).await;
     // upstream TCP connections idle for 0.7 s are closed (120 s in production): histories that pause reach the
     // re-opening of a connection
-    hk::set_tcp_idle_timeout(Duration::from_millis(700));
+    // (a history with a slow upstream keeps the production value: its point is a reply later than any time-out
+    // the resolver may have of its own, on a connection that is still open)
+    let slow = h.steps.iter().any(|s| matches!(s.script, Script::Reply { delay_ms, .. } if delay_ms > 0));
+    hk::set_tcp_idle_timeout(if slow { Duration::from_secs(120) } else { Duration::from_millis(700) });
     let (svc, udp, tcp) = hk::service_from_config(conf, vec![IpAddr::V4(Ipv4Addr::UNSPECIFIED).with_port(0)]).await.ok()?;
     let t_svc = tokio::spawn(async move {
         let _ = svc.run().await;
@@ -344,7 +356,11 @@ async fn run_history(h: &Hist) -> Option<Toks> {
         *st.answered_at.lock().unwrap() = None;
         let cip = Ipv4Addr::from(s.client);
         let lip = Ipv4Addr::from(s.local);
-        let wait = Duration::from_millis(if matches!(s.script, Script::Silent) { 20_000 } else { 300 });
+        let wait = Duration::from_millis(match s.script {
+            Script::Silent => 20_000,
+            Script::Reply { delay_ms, .. } if delay_ms > 0 => delay_ms + 3000,
+            _ => 300,
+        });
         let t_s = std::time::SystemTime::now().duration_since(std::time::UNIX_EPOCH).unwrap().as_secs();
         let t_ns = t0.elapsed();
         let mut sport = 0u16;
@@ -358,7 +374,8 @@ async fn run_history(h: &Hist) -> Option<Toks> {
                 let mut o = (s.query.len() as u16).to_be_bytes().to_vec();
                 o.extend(&s.query);
                 let _ = c.write_all(&o).await;
-                let r = tokio::time::timeout(wait, async {
+                // (over TCP the service always answers; a late answer under load must not be taken for silence)
+                let r = tokio::time::timeout(wait.max(Duration::from_millis(2000)), async {
                     let mut lb = [0u8; 2];
                     c.read_exact(&mut lb).await.ok()?;
                     let mut b = vec![0u8; u16::from_be_bytes(lb) as usize];
@@ -543,8 +560,8 @@ fn gen_hist(r: &mut Rng, stats: &mut Stats, thorough: bool) -> Hist {
     ];
     let clients: Vec<[u8; 4]> = vec![[127, 0, 1, 5], [127, 0, 1, 200], [127, 0, 2, 9], [127, 0, 3, 3], [127, 0, 4, 1]];
     let mut steps = vec![];
-    let flavour = r.below(8);
-    let nsteps = if flavour == 6 { r.range(3, 5) } else { r.range(5, 12) };
+    let flavour = r.below(9);
+    let nsteps = if flavour == 6 || flavour == 8 { r.range(3, 5) } else { r.range(5, 12) };
     let heavy = *r.pick(&clients);
     let (home_local, other_local) = if r.chance(1, 4) { ([127, 0, 0, 2], [127, 0, 0, 1]) } else { ([127, 0, 0, 1], [127, 0, 0, 2]) };
     let focus = r.pick(&names).clone();
@@ -557,7 +574,7 @@ fn gen_hist(r: &mut Rng, stats: &mut Stats, thorough: bool) -> Hist {
         let steady = flavour == 1 && r.chance(4, 5);
         let client = if steady { [127, 0, 1, 5] } else { client };
         let name = if steady || r.chance(3, 5) { focus.clone() } else { r.pick(&names).clone() };
-        let tcp = (r.chance(1, 6) && flavour != 0) || flavour == 6;
+        let tcp = (r.chance(1, 6) && flavour != 0) || flavour == 6 || flavour == 8;
         // the server has two addresses; a history mostly stays with one
         let local = if r.chance(1, 5) { other_local } else { home_local };
         let cookie = match r.below(9) {
@@ -597,7 +614,7 @@ fn gen_hist(r: &mut Rng, stats: &mut Stats, thorough: bool) -> Hist {
         // flavour 6: queries over TCP for different names from an allowed client, a second apart: the resolver's
         // upstream TCP connection goes idle, is closed and opened again.  flavour 7: the same question with and
         // without RD, in class IN and CH: what the cache holds must not answer a query that may not be forwarded
-        let idle = flavour == 6;
+        let idle = flavour == 6 || flavour == 8;
         let rdflip = flavour == 7;
         let (client, name) = if idle { ([127, 0, 1, 5], names[i as usize % 5].clone()) } else if rdflip { ([127, 0, 1, 5], focus.clone()) } else { (client, name) };
         let mut q = QSpec {
@@ -625,7 +642,7 @@ fn gen_hist(r: &mut Rng, stats: &mut Stats, thorough: bool) -> Hist {
         let script = match if idle || rdflip { 13 } else { r.below(14) } {
             0 => Script::Garbage,
             1 if thorough && r.chance(1, 6) => Script::Silent,
-            2 => Script::Reply { a: vec![], n: vec![], d: vec![], rdlen: 4, tc: false, wrong_id: false, rcode: *r.pick(RCODES), stray: r.chance(1, 3) },
+            2 => Script::Reply { a: vec![], n: vec![], d: vec![], rdlen: 4, tc: false, wrong_id: false, rcode: *r.pick(RCODES), stray: r.chance(1, 3), delay_ms: 0 },
             _ => {
                 let ttl = |r: &mut Rng| {
                     if steady {
@@ -647,6 +664,8 @@ fn gen_hist(r: &mut Rng, stats: &mut Stats, thorough: bool) -> Hist {
                     wrong_id: !idle && !rdflip && r.chance(1, 14),
                     rcode: if idle || rdflip { 0 } else { *r.pick(RCODES) },
                     stray: r.chance(1, 3),
+                    // flavour 8: the first answer over TCP takes 3.5 s
+                    delay_ms: if flavour == 8 && i == 0 { 3500 } else { 0 },
                 }
             }
         };
@@ -654,7 +673,12 @@ fn gen_hist(r: &mut Rng, stats: &mut Stats, thorough: bool) -> Hist {
             sleeps += 1;
             stats.bump("sleep.1100ms");
             1100
-        } else if idle && i > 0 && sleeps < 3 {
+        } else if flavour == 8 && i == 1 {
+            // after the slow answer nothing is asked for a second: a resolver that gave up on the slow upstream before
+            // its answer came still has to cope with that answer arriving, with no other query in between
+            stats.bump("sleep.1000ms-after-slow-upstream");
+            1000
+        } else if flavour == 6 && i > 0 && sleeps < 3 {
             sleeps += 1;
             stats.bump("sleep.1000ms-tcp-idle");
             1000
@@ -790,7 +814,8 @@ fn parse_hist(toks: &[u64]) -> Option<Hist> {
                     l.push(k.nums()?.into_iter().map(|x| x as u32).collect::<Vec<u32>>());
                 }
                 let stray = k.n().unwrap_or(0) != 0;
-                Script::Reply { a: l[0].clone(), n: l[1].clone(), d: l[2].clone(), rdlen, tc, wrong_id, rcode, stray }
+                let delay_ms = k.n().unwrap_or(0);
+                Script::Reply { a: l[0].clone(), n: l[1].clone(), d: l[2].clone(), rdlen, tc, wrong_id, rcode, stray, delay_ms }
             }
         };
         steps.push(Step { sleep_ms, client, local, port53: port == 53, tcp, query, script });
